@@ -67,6 +67,10 @@ def random_events(ctx, rnd, n):
         t = TM if isT else DT
         evs.append(tc.ev_conv("r%d" % i, t, text))
         ctx.nontrivial.add(("read", "time" if isT else "dt", forms.index(text), off % 60 != 0, off < 0))
+        # garbage in the offset part, with a zone name the library knows (directed: found by the thorough tier)
+        if rnd.random() < 0.08:
+            g = rnd.choice(["2+8.40", "--9.24", "+-0.30", "5-", "1-6", "++06.13", "+7-57", "-0+.30", "3+00"])
+            evs.append(tc.ev_conv("z%d" % i, t, date + hms + rnd.choice(["", "." + ms]) + "[" + g + ":" + rnd.choice(["EST", "PST", "CDT", "XYZ"]) + "]"))
         # a corruption of the text
         k = rnd.random()
         if text and k < 0.6:
